@@ -602,6 +602,70 @@ def c12l(ctx, prog):
             ctx.fail(o2, s_, "read_raw_bytes allocates a buffer whose length is not the requested `len`: the bytes of the value are cut or padded")
 
 
+RAW_BITS = r"bitvec::(vec::BitVec|slice::BitSlice|boxed::BitBox)::<T, O>::(as_raw_slice|as_raw_mut_slice|into_vec|into_boxed_slice|domain|domain_mut|bit_domain)$"
+
+
+def raw_bit_storage(ctx, prog, bodies, clause, key, what):
+    """A bit vector's storage elements are the value only when its first bit is bit 0 of the first element.  `split_off`,
+    `from_bitslice(&bits[k..])`, `to_bitvec()` and their clones keep the source's head offset: their raw storage starts with
+    dead bits, is shifted, and can be one element longer than ceil(len / bits).  A body that reads the raw storage to write
+    or hash the VALUE must first establish alignment: the receiver comes from a vector on which `force_align` was called
+    on every path to the read."""
+    o = ctx.ob(clause, key, "K2+K5", "every read of a bit vector's raw storage in %s is preceded, on the same vector, by force_align" % what)
+    for b in bodies:
+        for s_ in b.calls_to(RAW_BITS):
+            o.sites += 1
+            ctx.touch(b)
+            def base(op):
+                """the local that holds the vector: follow reborrows / copies of references back to the `&v` / `&mut v`"""
+                cur, seen = op_local(op), set()
+                while cur is not None and cur not in seen:
+                    seen.add(cur)
+                    ds = [x for x in (b.defs.get(cur) or []) if x[1] == "assign"]
+                    if len(ds) != 1:
+                        return cur
+                    rv = ds[0][2]["rv"]
+                    if rv["k"] == "ref":
+                        if rv["pl"][1] and rv["pl"][1] != ["*"]:
+                            return None
+                        if not rv["pl"][1]:
+                            return rv["pl"][0]
+                        cur = rv["pl"][0]
+                    elif rv["k"] in ("use", "cast") and op_local(rv["op"]) is not None:
+                        cur = op_local(rv["op"])
+                    else:
+                        return cur
+                return cur
+            recv = base(s_.node["args"][0])
+            ok = False
+            for f in b.calls_to(r"bitvec::vec::BitVec::<T, O>::force_align$"):
+                if b.site_dominates(f, s_) and recv is not None and recv == base(f.node["args"][0]):
+                    ok = True
+            if not ok:
+                # or the read is guarded by a test of the head offset (fast path for aligned vectors)
+                for bb in b.live_blocks:
+                    t = b.blocks[bb]["term"]
+                    if t["k"] != "switch":
+                        continue
+                    src = df.origins_of_operand(b, t["op"])
+                    if any(x.kind == "call" and re.search(r"BitIdx::<R>::into_inner$|BitPtr::<M, T, O>::raw_parts$|BitSpan.*::head$", x.callee() or "") for x in src):
+                        for v, tb in t["targets"] + [["otherwise", t["otherwise"]]]:
+                            if tb is not None and b.edge_dominates((bb, tb), s_.bb) and s_.bb not in b.reachable([x for _v, x in t["targets"] + [["o", t["otherwise"]]] if x != tb and x is not None], removed_nodes=[bb]):
+                                ok = True
+            if not ok:
+                ctx.fail(o, s_, "%s reads `%s` of a bit vector whose head offset is not known to be 0 (no force_align on it): for a vector made by split_off / from_bitslice at an "
+                         "unaligned index the storage starts with dead bits and is shifted - %s" % (b.name, short(s_.node["fn"]["path"]).split("::")[-1], what))
+    return o
+
+
+def c12m(ctx, prog):
+    bodies = [b for b in prog.all_bodies(CRATES) if b.rec.get("trait") in (wire.ENC_TRAIT, wire.DEC_TRAIT)]
+    o = raw_bit_storage(ctx, prog, bodies, "C12.m", "BitVec/raw-storage-read-only-when-aligned",
+                        "an Encode body: the decoder rebuilds the vector from ceil(len / bits) elements at head 0, so the bits come back shifted and the stream can hold one element more than is read")
+    if not ctx.key_prefix and o.sites < 1:
+        ctx.fail(o, "(program)", "anchor missing: Encode for BitVec reading its raw storage")
+
+
 def c12i(ctx, prog):
     """A ring buffer's storage is two slices whose split point depends on the deque's history.  An encoder (or decoder)
     that looks at the storage through as_slices() must consume BOTH halves; writing `as_slices().0` alone is a valid,
@@ -643,6 +707,7 @@ def run(ctx):
     ctx.run_clause("C12.j", lambda c: c12j(c, prog))
     ctx.run_clause("C12.k", lambda c: c12k(c, prog))
     ctx.run_clause("C12.l", lambda c: c12l(c, prog))
+    ctx.run_clause("C12.m", lambda c: c12m(c, prog))
     # the derive macros: their fixtures live in the serializer's unit-test module (unit/tuple/named structs, enums with
     # unit/tuple/struct variants, generics, #[serialize(skip)]); analysed, never run
     def fixtures(c):
